@@ -33,7 +33,7 @@ RULE = ("histories: cond mini-domain (forall precondition, forall-when / when / 
         "domain, combine agent domains, query a same-named variant domain with the same call; BFS to depth 3 (quick) / 4 (thorough), one case per first event, worlds "
         "de-duplicated on (live states, live operators' calls); schedules: thread A apply(call1,s0) || thread B in "
         "{apply(call2,s0), is_applicable(call3,s0), export}, all single pre-emptions at every library line "
-        "(both start orders), thorough: all pairs of pre-emptions on a 1-in-8 line grid. states = distinct worlds; "
+        "(both start orders), thorough: all pairs of pre-emptions on a 1-in-8 line grid; table-less operators: one Operator built without problem_objects driven through every history of 2 (quick) / 3 (thorough) events {query, apply, unvalidated apply, print} x 32 states of a two-object universe, every answer against a fresh table-less operator. states = distinct worlds; "
         "transitions = events executed; non-trivial = every case")
 ASSUMPTIONS = ["scheduling points are library source lines; CPython may switch between bytecodes of one line",
                "the digest reads public attributes only (structural walk via pv.absmap) and never calls library printing code"]
@@ -77,6 +77,10 @@ def cases(tier):
             for chunk in range(8):
                 yield {"kind": "threads", "a": a, "b": list(b), "first": first, "chunk": chunk, "chunks": 8,
                        "bound": 1, "deep": True}
+    # operators built WITHOUT the optional object table, re-used over states that mention different objects
+    for oi in range(len(NT_CALLS)):
+        for chunk in range(4):
+            yield {"kind": "notable", "op": oi, "chunk": chunk, "chunks": 4, "length": 2 if tier == "quick" else 3}
     if tier != "quick":
         for pi, (a, b) in enumerate(pairs[:2]):
             for chunk in range(16):
@@ -506,6 +510,83 @@ def check_case(case):
     r.nontrivial = True
     if case["kind"] == "bfs":
         check_bfs(r, case)
+    elif case["kind"] == "notable":
+        check_notable(r, case)
     else:
         check_threads(r, case)
     return r
+
+
+# ------------------------------------------------------------------------------------------------
+# operators without an object table (problem_objects=None is the constructor's default)
+
+NT_DOMAIN = f"""(define (domain nt1)
+{md.REQ}
+(:types t1 - object t2 - t1)
+(:predicates (p ?a - t1) (m ?a - t1) (w ?a - t2))
+(:action clr :parameters (?x - t2)
+  :precondition (and (forall (?z - t1) (and (m ?z))))
+  :effect (and (not (w ?x)) (forall (?z - t1) (when (p ?z) (not (p ?z))))))
+(:action tag :parameters (?x - t2) :precondition (and (m ?x)) :effect (and (w ?x) (not (m ?x)))))
+"""
+NT_FACTS = ["(p a)", "(p b)", "(m a)", "(m b)", "(w b)"]
+NT_CALLS = [("clr", ["b"]), ("tag", ["b"])]
+NT_KINDS = ["is_applicable", "apply", "apply-unvalidated", "print"]
+
+
+def _nt_event(op, kind, st):
+    if kind == "is_applicable":
+        return show(guard(op.is_applicable, st))
+    if kind == "print":
+        return show(guard(lambda: [str(op), op.typed_action_call]))
+    res = guard(lambda: op.apply(st, skip_validation=(kind == "apply-unvalidated")))
+    return show(guard(observe_state, res) if not isinstance(res, Raised) else res)
+
+
+def check_notable(r, case):
+    """One Operator object built without an object table is driven through every history of `length` events (query,
+    apply, unvalidated apply, print) over all 32 states of a two-object universe (the states mention different objects);
+    every answer must equal the answer of a FRESH table-less operator to the same single event, and no state changes."""
+    from itertools import product as _prod
+    from pddl_plus_parser.multi_agent.common import create_initial_state
+    D = parse_domain(NT_DOMAIN)
+    d0 = dom_digest(D)
+    states, vals = [], []
+    for bits in _prod([0, 1], repeat=len(NT_FACTS)):
+        init = " ".join(f for f, b in zip(NT_FACTS, bits) if b)
+        P = parse_problem(f"(define (problem ntp) (:domain nt1) (:objects a - t1 b - t2) (:init {init}) (:goal (and)))", D)
+        states.append(create_initial_state(P))
+        vals.append(observe_state(states[-1]))
+    name, args = NT_CALLS[case["op"]]
+    alone = {}
+    for kind in NT_KINDS:
+        for j, st in enumerate(states):
+            alone[(kind, j)] = _nt_event(operator(D, name, args, None), kind, st)
+            r.count("transitions")
+    evs = [(k, j) for k in NT_KINDS for j in range(len(states))]
+    firsts = [e for i, e in enumerate(evs) if i % case["chunks"] == case["chunk"]]
+    for first in firsts:
+        for rest in _prod(evs, repeat=case["length"] - 1):
+            hist = [first] + list(rest)
+            op = operator(D, name, args, None)
+            for i, (kind, j) in enumerate(hist):
+                got = _nt_event(op, kind, states[j])
+                r.count("transitions")
+                if got != alone[(kind, j)]:
+                    r.fail("result-differs", f"one table-less operator ({name} {' '.join(args)}) driven through "
+                           f"{[(k, sorted(vals[x].atoms)) for k, x in hist[:i + 1]]}: the last event returned {str(got)[:300]}, a "
+                           f"fresh table-less operator returns {str(alone[(kind, j)])[:300]} for it", alone[(kind, j)], got,
+                           tags=["notable", kind])
+                    return
+            r.seen("states", digest((case["op"], tuple(hist))))
+    for j, st in enumerate(states):
+        now = guard(observe_state, st)
+        if isinstance(now, Raised) or now != vals[j]:
+            r.fail("state-modified", f"table-less operator histories changed input state {sorted(vals[j].atoms)} to {show(now)}",
+                   vals[j].to_json(), show(now), tags=["notable"])
+            return
+    if guard(dom_digest, D) != d0:
+        r.fail("domain-modified", "table-less operator histories changed the domain's structure", "unchanged", "changed",
+               tags=["notable"])
+        return
+    r.outcome("notable-ok")
